@@ -16,12 +16,13 @@ TAG_PROPERTY = {
     "mon.idle.req": "C02", "mon.guards-first": "C04", "mon.veto.act": "C04", "mon.veto.res": "C04", "mon.veto.life": "C04",
     "ev.guard": "C04", "ev.guard.pending": "C04", "q": "C04", "req": "C04", "rem": "C04", "oreq": "C04",
     "ev.traverse": "C05", "mon.reach": "C05", "mon.consume": "C05", "mon.inj.order": "C05", "mon.inj.order.D13": "C05",
-    "ev.plan": "C06", "plans": "C06", "pex": "C06", "succ": "C06", "fail": "C06", "tasks": "C06", "hst": "C06", "sst": "C06",
+    "ev.plan": "C06", "ev.status": "C06", "plans": "C06", "pex": "C06", "succ": "C06", "fail": "C06", "tasks": "C06", "hst": "C06", "sst": "C06",
     "plog": "C07", "mon.plan.iter": "C07", "mon.plan.chain": "C07", "mon.plan.disjoint": "C07", "mon.plan.count": "C07", "mon.plan.free": "C07",
     "prev": "C09", "tt": "C09", "last": "C09",
     "mon.idle.pe": "C13", "mon.idle.px": "C13", "mon.idle.pc": "C13", "mon.idle.px.D10": "C13", "mon.idle.pc.D10": "C13", "mon.scheduled": "C13", "sub": "C13",
     "isR": "C13", "isS": "C13", "ev.guard.queries": "C13", "pe": "C13", "px": "C13", "pc": "C13", "ev.config": "C13",
     "prev.payload": "C14", "ev.guard.payload": "C14", "ev.life.payload": "C14",
+    "mon.payload.guard": "C14", "mon.payload.life": "C14", "mon.payload.prev": "C14",
     "mon.report": "C16", "strA": "C16", "hist": "C16", "lg": "C16",
     "log.methods": "C16", "log.requests": "C16", "log.statuses": "C16", "log.resolutions": "C16", "log.order": "C16",
     "draws": "C12", "mon.random.count": "C12", "mon.random.rank": "C12", "mon.random.zero": "C12", "mon.random.ids": "C12",
@@ -33,11 +34,11 @@ CONFIG_TAGS = {"act", "isA", "res"}
 UNATTRIBUTED = {"ev.life", "ev.report", "ev.all"}
 
 TIERS = {
-    "quick": dict(fixtures=["min", "comp", "ortho", "strat", "auto", "peers", "util", "plancap", "bare", "floaty"], records=900, chunks=3,
+    "quick": dict(fixtures=["min", "comp", "ortho", "strat", "auto", "peers", "util", "plancap", "bare", "floaty", "utilortho", "selutil"], records=900, chunks=3,
                   variants=["plain", "asan", "assert"], extra_variant_fixtures=["min", "ortho", "auto"],
-                  mc=["min", "comp", "util"], systematic={"auto": 2, "ortho": 1}),
-    "thorough": dict(fixtures=["min", "comp", "ortho", "strat", "auto", "peers", "oroot", "wide", "plan", "selpeers", "util", "plancap", "bare", "floaty"],
-                     records=12000, chunks=12, variants=["plain", "asan", "assert", "dev", "plain11"], mc=["min", "comp", "ortho", "oroot", "util", "peers"],
+                  mc=["min", "comp", "util", "selutil"], systematic={"auto": 2, "ortho": 1}),
+    "thorough": dict(fixtures=["min", "comp", "ortho", "strat", "auto", "peers", "oroot", "wide", "plan", "selpeers", "util", "plancap", "bare", "floaty", "utilortho", "selutil"],
+                     records=12000, chunks=12, variants=["plain", "asan", "assert", "dev", "plain11"], mc=["min", "comp", "ortho", "oroot", "util", "peers", "selutil", "utilortho"],
                      systematic={"min": 12, "comp": 10, "ortho": 8, "strat": 6, "auto": 10, "peers": 6, "oroot": 8, "plan": 6}),
 }
 
@@ -210,7 +211,7 @@ def route(run, d, rec_kinds=None):
 # (monitors, which judge the observed data alone, always count for their own property).
 STAGES = [
     ("C05", {"ev.traverse"}),
-    ("C06", {"ev.plan", "succ", "fail", "hst", "sst"}),
+    ("C06", {"ev.plan", "ev.status", "succ", "fail", "hst", "sst"}),
     ("C12", {"draws"}),
     ("CFG", {"act", "isA", "res"}),
     ("C06", {"plans", "pex", "tasks", "plog"}),     # plan edits made from lifecycle callbacks come after the resolution
